@@ -40,6 +40,11 @@ func newStore(kind string) entryStore {
 	if kind == "" || kind == "mem" {
 		return newMemStore()
 	}
+	if kind == "front" {
+		s := newMemStore()
+		s.front = true
+		return s
+	}
 	d, ok := realDBs[kind]
 	if !ok {
 		var err error
@@ -67,7 +72,12 @@ func (s *realStore) removeTo(k uint64) {
 		panic(err)
 	}
 }
-func (s *realStore) get(i uint64) (pb.Entry, bool) {
+func (s *realStore) get(i uint64) (e pb.Entry, ok bool) {
+	defer func() {
+		if recover() != nil { // the plain store panics on a removed single index
+			e, ok = pb.Entry{}, false
+		}
+	}()
 	es, _, err := s.d.IterateEntries(nil, 0, s.shard, s.replica, i, i+1, math.MaxUint64)
 	if err != nil || len(es) != 1 || es[0].Index != i {
 		return pb.Entry{}, false
@@ -88,6 +98,10 @@ func (s *realStore) release() {
 type memStore struct {
 	ents map[uint64]pb.Entry
 	max  uint64
+	// front: a permissive store - IterateEntries starts at the first index it holds
+	// at or above low (the interface only says "the continuous entries in [low, high)");
+	// LogReader.entriesLocked has to turn such an answer into ErrCompacted
+	front bool
 }
 
 func newMemStore() *memStore { return &memStore{ents: map[uint64]pb.Entry{}} }
@@ -116,6 +130,14 @@ func (s *memStore) IterateEntries(ents []pb.Entry, size uint64, shardID uint64, 
 	low uint64, high uint64, maxSize uint64) ([]pb.Entry, uint64, error) {
 	if high > s.max+1 {
 		high = s.max + 1
+	}
+	if s.front {
+		for i := low; i < high; i++ {
+			if _, ok := s.ents[i]; ok {
+				low = i
+				break
+			}
+		}
 	}
 	for i := low; i < high; i++ {
 		e, ok := s.ents[i]
